@@ -5,7 +5,7 @@ set -u
 patch=$1; shift
 cd /verif
 R=/tmp/repo_seed
-git -C $R checkout -q -- . ; git -C $R clean -fdq
+git -C $R checkout -q --detach $(git -C /repo rev-parse HEAD); git -C $R checkout -q -- . ; git -C $R clean -fdq
 git -C $R apply "$patch" || { echo "patch does not apply"; exit 9; }
 for id in "$@"; do
   start=$(date +%s)
